@@ -77,7 +77,7 @@ def run(chk):
     hh_eval, hh_nontriv, hh_valid = chk.cov["evaluations"], chk.cov["distinct_nontrivial"], chk.cov["traces_validated_against_impl"]
     # ---- process level: waiters served by priority then waiting time; priority changes reposition ----
     import simcheck
-    simcheck.run(chk, ["crowd", "prioq", "resource", "pool", "lifecycle"], total_quick=6000, total_thorough=40000, extra_targets=["hhmain", "hhspec"])
+    simcheck.run(chk, ["crowd", "prioq", "resource", "pool", "lifecycle"], total_quick=10000, total_thorough=40000, extra_targets=["hhmain", "hhspec"])
     chk.cov["evaluations"] += hh_eval
     chk.cov["distinct_nontrivial"] += hh_nontriv
     chk.cov["traces_validated_against_impl"] += hh_valid
